@@ -192,7 +192,7 @@ def main(chk):
     # types are outside the property): what the small universe cannot hold -- long key lists, lists of
     # dicts of unions, random regex programs inside containers
     from . import deep
-    ndeep = 15000 if quick else 120000
+    ndeep = 15000 if quick else 80000
     made = 0
     for i in range(ndeep * 4):
         if made >= ndeep:
